@@ -7,6 +7,9 @@
 -/
 import Ctrmml.Model.MdsConv
 import Ctrmml.Spec.Timeline
+import Ctrmml.Proofs.CodecBreak
+import Ctrmml.Proofs.CodecTrack
+import Ctrmml.Proofs.CodecCall
 namespace Ctrmml.C02
 open Ctrmml Ctrmml.Mds Ctrmml.Seq Tables
 
@@ -42,5 +45,240 @@ theorem C02_stream_ends_with_finish_partial (nS nM : Nat) (es : List MEv) (e : E
   rfl
 
 example : ∃ e', encEv 0 0 {} ⟨mds_FINISH, 0⟩ = .ok e' := ⟨_, rfl⟩
+
+end Ctrmml.C02
+
+/-! ## The codec round trip (second layer)
+
+`convert_track` (model `Mds.convertTrack`) followed by the MDSDRV sequence rules (`Seq.run`) gives
+back the tick string of the event list.  Definitions used in the statements (Proofs/CodecLinear,
+Proofs/CodecLoops): `Codec.linEv` — the linear fragment (REST / TIE / NOTE `81..df` with length
+1..65535, SLR, the one- and two-argument commands incl. INS/PCM/PEG/MTAB; `FLG` only with an
+argument that leaves drum mode off; not `DMFINISH`); `Codec.evTicks`/`Codec.ticks` — rest n ↦
+n × off, note ↦ on (ty − NOTE) then (n − 1) × hold, tie ↦ n × hold, command ↦ `cmd op operand`
+with the operand cut to the width that is written (`Codec.cmdArg`); `Codec.Node`/`flatL`/`expL` —
+bracket structure of counted loops, its event list and its expansion.  The interpreter starts at
+pc 0 with empty stacks and ARBITRARY contents of the two remembered-length registers. -/
+namespace Ctrmml.C02
+open Ctrmml Ctrmml.Mds Ctrmml.Seq Ctrmml.Codec Tables
+
+/-- **Linear fragment, all durations 1..65535, all adjacencies.**  The converter accepts, and the
+interpreter plays exactly the tick string of the events and stops with `finished` (for every tick
+limit that is not smaller than the string and every sufficiently large fuel). -/
+theorem C02_codec_roundtrip_linear (nS nM : Nat) (es : List MEv) (hv : ∀ ev ∈ es, linEv ev = true) (farg : Nat) :
+    ∃ bytes, convertTrack nS nM (es ++ [⟨mds_FINISH, farg⟩]) = .ok bytes ∧
+      ∀ (base mj maxTicks : Nat) (ln lr : Option Nat), (ticks nS nM es).length ≤ maxTicks →
+        ∃ n, ∀ fuel, fuel > n →
+          run bytes base mj maxTicks fuel { pc := 0, lastNote := ln, lastRest := lr } =
+            (ticks nS nM es, .finished) := by
+  obtain ⟨bytes, h1, h2⟩ := codec_roundtrip_linear nS nM es hv farg
+  exact ⟨bytes, h1, fun base mj maxTicks ln lr hlen => (h2 base mj ln lr).run_eq maxTicks hlen⟩
+
+/-- **Loop point and loop-back jump** (`a ++ [SEGNO] ++ b ++ [JUMP]`, `a`, `b` linear; the shape of
+defect D4).  With the jump followed `mj` times the interpreter plays `a`, then `b` `mj + 1` times
+with a loop mark after each of the first `mj`.  Hypothesis: the stream is shorter than 64 KiB
+(the jump offset is 16 bit). -/
+theorem C02_codec_roundtrip_segno (nS nM : Nat) (a b : List MEv) (ha : ∀ ev ∈ a, linEv ev = true)
+    (hb : ∀ ev ∈ b, linEv ev = true) (jarg : Nat) :
+    ∃ bytes, convertTrack nS nM (a ++ [⟨mds_SEGNO, 0⟩] ++ b ++ [⟨mds_JUMP, jarg⟩]) = .ok bytes ∧
+      (bytes.length < 65536 → ∀ (base mj maxTicks : Nat) (ln lr : Option Nat),
+        (ticks nS nM a ++ repeatL mj (ticks nS nM b ++ [Tk.loopMark]) ++ ticks nS nM b).length ≤ maxTicks →
+        ∃ n, ∀ fuel, fuel > n →
+          run bytes base mj maxTicks fuel { pc := 0, lastNote := ln, lastRest := lr } =
+            (ticks nS nM a ++ repeatL mj (ticks nS nM b ++ [Tk.loopMark]) ++ ticks nS nM b, .finished)) := by
+  obtain ⟨bytes, h1, h2⟩ := codec_roundtrip_segno nS nM a b ha hb jarg
+  exact ⟨bytes, h1, fun hl base mj maxTicks ln lr hlen => (h2 hl base mj ln lr).run_eq maxTicks hlen⟩
+
+/-- the statement of the task for `maxJumps = 1`: ticks(a) ++ ticks(b) ++ [loopMark] ++ ticks(b) -/
+theorem C02_codec_roundtrip_segno_once (nS nM : Nat) (a b : List MEv) (ha : ∀ ev ∈ a, linEv ev = true)
+    (hb : ∀ ev ∈ b, linEv ev = true) (jarg : Nat) :
+    ∃ bytes, convertTrack nS nM (a ++ [⟨mds_SEGNO, 0⟩] ++ b ++ [⟨mds_JUMP, jarg⟩]) = .ok bytes ∧
+      (bytes.length < 65536 → ∀ (base maxTicks : Nat) (ln lr : Option Nat),
+        (ticks nS nM a ++ ticks nS nM b ++ [Tk.loopMark] ++ ticks nS nM b).length ≤ maxTicks →
+        ∃ n, ∀ fuel, fuel > n →
+          run bytes base 1 maxTicks fuel { pc := 0, lastNote := ln, lastRest := lr } =
+            (ticks nS nM a ++ ticks nS nM b ++ [Tk.loopMark] ++ ticks nS nM b, .finished)) := by
+  obtain ⟨bytes, h1, h2⟩ := C02_codec_roundtrip_segno nS nM a b ha hb jarg
+  refine ⟨bytes, h1, fun hl base maxTicks ln lr hlen => ?_⟩
+  have := h2 hl base 1 maxTicks ln lr (by simpa [repeatL, List.append_assoc] using hlen)
+  simpa [repeatL, List.append_assoc] using this
+
+/-- **Counted loops without break, nested to any depth** (restriction: no `LPB` in the track;
+leaves in the linear fragment; terminated by `FINISH`).  The interpreter plays the loop expansion:
+each body `passes n` times (`n mod 256` times, once if that is `≤ 1`). -/
+theorem C02_codec_roundtrip_loops_nobreak_partial (nS nM : Nat) (ts : List Node) (hl : linL ts = true)
+    (hn : noBreakL ts = true) (farg : Nat) :
+    ∃ bytes, convertTrack nS nM (flatL ts ++ [⟨mds_FINISH, farg⟩]) = .ok bytes ∧
+      ∀ (base mj maxTicks : Nat) (ln lr : Option Nat), (expL nS nM ts).length ≤ maxTicks →
+        ∃ n, ∀ fuel, fuel > n →
+          run bytes base mj maxTicks fuel { pc := 0, lastNote := ln, lastRest := lr } =
+            (expL nS nM ts, .finished) := by
+  obtain ⟨bytes, h1, h2⟩ := codec_roundtrip_loops_nobreak nS nM ts hl hn farg
+  exact ⟨bytes, h1, fun base mj maxTicks ln lr hlen => (h2 base mj ln lr).run_eq maxTicks hlen⟩
+
+/-- **convert_structured_eq.**  `convert_track` back-patches the loop-break instruction into the
+middle of the stream when it reaches the loop end.  On every bracket structure over the linear
+fragment it computes exactly what the structured two-pass encoder `Codec.encL` computes, which only
+ever appends (for a loop with a break: encode the part after the break once to measure it, emit
+`LPB o` / `LPBL oo`, encode it again) — provided the result is shorter than 64 KiB. -/
+theorem C02_convert_structured_eq (nS nM : Nat) (ts : List Node) (hl : linL ts = true) (e' : Enc)
+    (h : encL nS nM ts {} = .ok e') (hb : e'.out.length < 65536) :
+    convertTrack nS nM (flatL ts) = .ok e'.out :=
+  convert_structured_eq nS nM ts hl e' h hb
+
+/-- **Counted loops with and without break, nested to any depth** (leaves in the linear fragment,
+terminated by `FINISH`, stream shorter than 64 KiB).  The interpreter plays exactly the loop
+expansion `expL`: each body `passes n` times (`n mod 256`, once if that is `≤ 1`), the part after
+the break dropped on the last pass. -/
+theorem C02_codec_roundtrip_loops (nS nM : Nat) (ts : List Node) (hl : linL ts = true) (farg : Nat) :
+    ∃ e', encL nS nM ts {} = .ok e' ∧
+      (e'.out.length + 1 < 65536 →
+        convertTrack nS nM (flatL ts ++ [⟨mds_FINISH, farg⟩]) = .ok (e'.out ++ [mds_FINISH]) ∧
+        ∀ (base mj maxTicks : Nat) (ln lr : Option Nat), (expL nS nM ts).length ≤ maxTicks →
+          ∃ n, ∀ fuel, fuel > n →
+            run (e'.out ++ [mds_FINISH]) base mj maxTicks fuel { pc := 0, lastNote := ln, lastRest := lr } =
+              (expL nS nM ts, .finished)) := by
+  obtain ⟨e', h1, h2⟩ := codec_roundtrip_loops nS nM ts hl farg
+  refine ⟨e', h1, fun hb => ⟨(h2 hb).1, fun base mj maxTicks ln lr hlen => ?_⟩⟩
+  exact ((h2 hb).2 base mj ln lr).run_eq maxTicks hlen
+
+/-- **The general single track**: a bracket structure `ta` (nested counted loops with and without
+break over the linear fragment), the loop point at loop depth 0, a bracket structure `tb`, the
+loop-back jump.  `trackBytes eB` = the structured encoding of the two parts followed by the jump
+instruction; if it is shorter than 64 KiB it is what `convert_track` produces, and with the jump
+followed `mj` times the interpreter plays the expansion of `ta`, then the expansion of `tb`
+`mj + 1` times with a loop mark after each of the first `mj`. -/
+theorem C02_codec_roundtrip_track (nS nM : Nat) (ta tb : List Node) (ha : linL ta = true) (hb : linL tb = true)
+    (jarg : Nat) :
+    ∃ eA eB, encL nS nM ta {} = .ok eA ∧ encL nS nM tb (afterSegno eA) = .ok eB ∧
+      ((trackBytes eB).length < 65536 →
+        convertTrack nS nM (flatL ta ++ [⟨mds_SEGNO, 0⟩] ++ flatL tb ++ [⟨mds_JUMP, jarg⟩]) = .ok (trackBytes eB) ∧
+        ∀ (base mj maxTicks : Nat) (ln lr : Option Nat),
+          (expL nS nM ta ++ repeatL mj (expL nS nM tb ++ [Tk.loopMark]) ++ expL nS nM tb).length ≤ maxTicks →
+          ∃ n, ∀ fuel, fuel > n →
+            run (trackBytes eB) base mj maxTicks fuel { pc := 0, lastNote := ln, lastRest := lr } =
+              (expL nS nM ta ++ repeatL mj (expL nS nM tb ++ [Tk.loopMark]) ++ expL nS nM tb, .finished)) := by
+  obtain ⟨eA, eB, hA, hB, h⟩ := codec_roundtrip_track nS nM ta tb ha hb jarg
+  refine ⟨eA, eB, hA, hB, fun hlen => ⟨(h hlen).1, fun base mj maxTicks ln lr hmax => ?_⟩⟩
+  exact ((h hlen).2 base mj ln lr).run_eq maxTicks hmax
+
+/-- **A compiled stream at any offset of a chunk** (building block for whole chunks; `Codec.Reach`
+= zero or more `Seq.step`s, `Codec.Frame` = loop stack, call stack, drum flag and jump count
+unchanged): entered at its first byte with ANY call stack, loop stack and register contents, the
+stream of a bracket structure plays its expansion and arrives at its `FINISH` with the stacks as
+on entry.  (The bytes do not depend on the offset: prefix independence of the encoder.) -/
+theorem C02_stream_at_offset_partial (nS nM : Nat) (ts : List Node) (hl : linL ts = true) :
+    ∃ e', encL nS nM ts {} = .ok e' ∧
+      ∀ (pre : List Nat) (seq : List Nat) (base mj : Nat) (s : St),
+        pre ++ e'.out ++ [mds_FINISH] <+: seq → s.pc = pre.length → s.drum = false →
+        ∃ s1, Reach seq base mj s s1 ∧ Frame s s1 ∧ s1.pc = pre.length + e'.out.length ∧
+          seq[s1.pc]? = some mds_FINISH ∧ s1.out = (expL nS nM ts).reverse ++ s.out :=
+  stream_at nS nM ts hl
+
+/-- **The call / return join point.**  From related encoder / interpreter states (`Codec.Good`: the
+encoder's remembered lengths, where it relies on them, equal the interpreter's registers), a
+`PAT k` whose pointer-table slot leads to a stream that plays `T` and arrives at its `FINISH`
+(`Codec.SubPlays`, e.g. by `C02_stream_at_offset_partial`) makes the interpreter play `T` and
+return behind the call in a state related to the encoder state after `PAT` — the interpreter's
+registers are unknown there, and the encoder has forgotten both. -/
+theorem C02_call_return_partial {seq : List Nat} {base mj : Nat} {e : Enc} {s : St} {O : List Tk}
+    (g : Good e s O) (arg : Nat) (hp : (afterPAT e arg).out <+: seq) {t : Nat}
+    (ht : slotTarget seq base (arg % 256) = some t) {T : List Tk} (hsub : SubPlays seq base mj t T) :
+    encEv 0 0 e ⟨mds_PAT, arg⟩ = .ok (afterPAT e arg) ∧
+    ∃ s', Reach seq base mj s s' ∧ Frame s s' ∧ Good (afterPAT e arg) s' (T.reverse ++ O) :=
+  ⟨encEv_pat 0 0 e arg, pat_good g arg hp ht hsub⟩
+
+/-! ### Outside the domain: two break markers in one loop (defect found while proving)
+
+`Codec.Node` allows at most one break per loop.  That restriction is necessary: `convert_track` keeps
+ONE break address per open loop, so of several `LPB` events in the same loop only the LAST is
+back-patched, while the player (`Basic_Player::step_event`, Spec/Expand) leaves the loop at the
+FIRST break on the last pass.  Moreover every dropped `LPB` still overwrites `last_type`, which
+switches the length disambiguation off exactly as in D4. -/
+
+/-- `[c / d / e]2`: the bytes play `c d e c d` (the player plays `c d e c`) -/
+def exDouble : List MEv :=
+  [⟨mds_LP, 0⟩, ⟨0xa6, 2⟩, ⟨mds_LPB, 0⟩, ⟨0xa8, 2⟩, ⟨mds_LPB, 0⟩, ⟨0xaa, 2⟩, ⟨mds_LPF, 2⟩, ⟨mds_FINISH, 0⟩]
+
+/-- `[c c / r4 / e]2`: the rest length `03` lands behind the length-less second `c` and is decoded as
+its length; the rest is lost on every pass -/
+def exDoubleAdj : List MEv :=
+  [⟨mds_LP, 0⟩, ⟨0xa6, 2⟩, ⟨0xa6, 2⟩, ⟨mds_LPB, 0⟩, ⟨mds_REST, 4⟩, ⟨mds_LPB, 0⟩, ⟨0xaa, 2⟩, ⟨mds_LPF, 2⟩, ⟨mds_FINISH, 0⟩]
+
+theorem C02_double_break_counterexample :
+    (convertTrack 0 0 exDouble).toOption = some [0xfa, 0xa6, 0x01, 0xa8, 0xfc, 0x03, 0xaa, 0xfb, 2, 0xff] ∧
+    run [0xfa, 0xa6, 0x01, 0xa8, 0xfc, 0x03, 0xaa, 0xfb, 2, 0xff] 0 0 100 100 { pc := 0 } =
+      ([.on 36, .hold, .on 38, .hold, .on 40, .hold, .on 36, .hold, .on 38, .hold], .finished) ∧
+    (convertTrack 0 0 exDoubleAdj).toOption =
+      some [0xfa, 0xa6, 0x01, 0xa6, 0x03, 0xfc, 0x03, 0xaa, 0xfb, 2, 0xff] := by
+  decide +kernel
+
+/-! ### non-vacuity -/
+
+/-- the D4 shape `note, note (same length), SEGNO, rest, note, JUMP` -/
+def exD4a : List MEv := [⟨0xa6, 24⟩, ⟨0xa6, 24⟩]
+def exD4b : List MEv := [⟨mds_REST, 48⟩, ⟨0xa8, 24⟩]
+
+example : (∀ ev ∈ exD4a, linEv ev = true) ∧ (∀ ev ∈ exD4b, linEv ev = true) := by decide
+/-- the length-less second note gets its length byte `17` at the loop point (D4 fixed) -/
+example : convertTrack 0 0 (exD4a ++ [⟨mds_SEGNO, 0⟩] ++ exD4b ++ [⟨mds_JUMP, 0⟩]) =
+    .ok [0xa6, 0x17, 0xa6, 0x17, 0x2f, 0xa8, 0x17, 0xf5, 0xff, 0xfa] := rfl
+example : (ticks 0 0 exD4a ++ ticks 0 0 exD4b ++ [Tk.loopMark] ++ ticks 0 0 exD4b).length = 193 := by decide +kernel
+
+/-- a 300-tick note followed by a 130-tick rest: both are split at 128 ticks -/
+def exLong : List MEv := [⟨0xa6, 300⟩, ⟨mds_REST, 130⟩]
+example : ∀ ev ∈ exLong, linEv ev = true := by decide
+example : convertTrack 0 0 (exLong ++ [⟨mds_FINISH, 0⟩]) = .ok [0xa6, 0x7f, 0x81, 0x81, 0x2b, 0x7f, 0x01, 0xff] := rfl
+example : (ticks 0 0 exLong).length = 430 := by decide +kernel
+example : (ticks 0 0 [⟨0xa6, 3⟩, ⟨mds_TIE, 2⟩, ⟨mds_REST, 2⟩, ⟨mds_VOL, 300⟩, ⟨mds_FMREG, 0x12345⟩, ⟨mds_INS, 3⟩]) =
+    [.on 36, .hold, .hold, .hold, .hold, .off, .off, .cmd mds_VOL 44, .cmd mds_FMREG 0x2345, .cmd mds_INS 3] := by
+  decide
+
+/-- nested loops: `c [ c [ r ]2 ]3` -/
+def exLoops : List Node := [.ev ⟨0xa6, 24⟩, .loop [.ev ⟨0xa6, 24⟩, .loop [.ev ⟨mds_REST, 12⟩] 2] 3]
+example : linL exLoops = true ∧ noBreakL exLoops = true := by decide
+example : convertTrack 0 0 (flatL exLoops ++ [⟨mds_FINISH, 0⟩]) =
+    .ok [0xa6, 0x17, 0xfa, 0xa6, 0x17, 0xfa, 0x0b, 0xfb, 2, 0xfb, 3, 0xff] := rfl
+example : (expL 0 0 exLoops).length = 24 + 3 * (24 + 2 * 12) := by decide +kernel
+
+/-- loops with breaks, nested: `c [ c c / r [ d / r ]2 ]3` -/
+def exBreak : List Node :=
+  [.ev ⟨0xa6, 24⟩, .loopB [.ev ⟨0xa6, 24⟩, .ev ⟨0xa6, 24⟩] [.ev ⟨mds_REST, 48⟩, .loopB [.ev ⟨0xa8, 12⟩] [.ev ⟨mds_REST, 12⟩] 2] 3]
+example : linL exBreak = true := by decide
+/-- the length-less third `c` is followed by the back-patched `fc 0b`, then the rest length `2f` -/
+example : (convertTrack 0 0 (flatL exBreak ++ [⟨mds_FINISH, 0⟩])).toOption =
+    some [0xa6, 0x17, 0xfa, 0xa6, 0x17, 0xa6, 0xfc, 0x0b, 0x2f, 0xfa, 0xa8, 0x0b, 0xfc, 0x03, 0x0b, 0xfb, 2, 0xfb, 3, 0xff] := by
+  decide +kernel
+example : ((encL 0 0 exBreak {}).map (·.out)).toOption =
+    some [0xa6, 0x17, 0xfa, 0xa6, 0x17, 0xa6, 0xfc, 0x0b, 0x2f, 0xfa, 0xa8, 0x0b, 0xfc, 0x03, 0x0b, 0xfb, 2, 0xfb, 3] := by
+  decide +kernel
+example : (expL 0 0 exBreak).length = 24 + 2 * (48 + 48 + (12 + 12 + 12)) + 48 := by decide +kernel
+
+/-- the hypotheses of `C02_call_return_partial` are satisfiable: a chunk fragment with the caller
+`fe 00 ff` at 0, the pointer table at 3 (slot 0 → offset 2 from the table) and the callee `a6 17 ff` at 5 -/
+example : ∃ (seq : List Nat) (t : Nat) (T : List Tk) (s' : St),
+    slotTarget seq 3 (0 % 256) = some t ∧ SubPlays seq 3 0 t T ∧ T = ticks 0 0 [⟨0xa6, 24⟩] ∧
+    Reach seq 3 0 { pc := 0 } s' ∧ s'.pc = 2 ∧ s'.out = T.reverse := by
+  obtain ⟨e', he', h⟩ := stream_at_subPlays 0 0 [.ev ⟨0xa6, 24⟩] (by decide)
+  have hc : encL 0 0 [.ev ⟨0xa6, 24⟩] {} = .ok { out := [0xa6, 0x17], lastNote := 0x17, lastType := 0xa6 } := rfl
+  rw [hc] at he'; injection he' with he'; subst he'
+  have hsub := h [0xfe, 0x00, 0xff, 0x00, 0x02] [0xfe, 0x00, 0xff, 0x00, 0x02, 0xa6, 0x17, 0xff] 3 0
+    (List.prefix_refl _)
+  obtain ⟨_, s', r, _, g⟩ := C02_call_return_partial (seq := [0xfe, 0x00, 0xff, 0x00, 0x02, 0xa6, 0x17, 0xff])
+    (base := 3) (mj := 0) (good_init none none) 0 (by decide) (t := 5) (by decide) hsub
+  refine ⟨_, 5, _, s', by decide, hsub, by simp [ticks, expL, Node.exp], r, ?_, ?_⟩
+  · rcases g.mode with ⟨_, hpc, _⟩ | ⟨hn, _⟩
+    · exact hpc
+    · simp [afterPAT, needLenB, noteish, mds_PAT, mds_SLR] at hn
+  · rcases g.mode with ⟨_, _, ho⟩ | ⟨hn, _⟩
+    · simpa using ho
+    · simp [afterPAT, needLenB, noteish, mds_PAT, mds_SLR] at hn
+
+/-- a looping track with a loop (with break) after the loop point: `c c L [ c / r ]2` -/
+def exTrackA : List Node := [.ev ⟨0xa6, 24⟩, .ev ⟨0xa6, 24⟩]
+def exTrackB : List Node := [.loopB [.ev ⟨0xa6, 24⟩] [.ev ⟨mds_REST, 24⟩] 2]
+example : linL exTrackA = true ∧ linL exTrackB = true := by decide
+example : (convertTrack 0 0 (flatL exTrackA ++ [⟨mds_SEGNO, 0⟩] ++ flatL exTrackB ++ [⟨mds_JUMP, 0⟩])).toOption =
+    some [0xa6, 0x17, 0xa6, 0x17, 0xfa, 0xa6, 0x17, 0xfc, 0x03, 0x17, 0xfb, 2, 0xf5, 0xff, 0xf5] := by decide +kernel
 
 end Ctrmml.C02
